@@ -164,12 +164,12 @@ class K4Sem(Suite):
             return out
         if "ok" in out:
             fk = _final_kind(case["pipe"])
-            res = {"ok": mt.canon_table(out["ok"], sort_cols=(fk != "select_columns"), sort_rows=True)}
+            t = {"cols": list(out["ok"]["cols"]), "rows": [[mt._fix_lit(v) for v in r] for r in out["ok"]["rows"]]}
+            res = {"ok": t, "col_order": fk == "select_columns"}
             if fk == "order_rows":
                 # the claim is the order of the key columns; rows that tie on every key may come in any order
                 _, steps = _flatten_main(case["pipe"])
                 keys = [s for s in steps if s["call"] != "_def"][-1]["cols"]
-                t = mt.canon_table(out["ok"], sort_cols=False, sort_rows=False)
                 idx = [t["cols"].index(k) for k in keys if k in t["cols"]]
                 res["key_sequence"] = [[r[i] for i in idx] for r in t["rows"]]
             return res
@@ -193,6 +193,27 @@ class K4Sem(Suite):
             # pandas raised at run time (dtype inference on all-null / empty columns, object-vs-float comparisons):
             # the model has no dtypes; counted, not compared (the properties speak about returned tables)
             self.real_errors = getattr(self, "real_errors", 0) + 1
+            return True
+        if isinstance(real_c, dict) and isinstance(model_c, dict) and "ok" in real_c and "ok" in model_c:
+            big = False
+            for t in (real_c["ok"], model_c["ok"]):
+                for r in t["rows"]:
+                    for v in r:
+                        n = pipes.val_num(v) if isinstance(v, dict) else None
+                        if n is not None and abs(n) > 1e15:
+                            big = True
+            if big:
+                # beyond float64's exact integer range / int64: the model computes over unbounded rationals
+                self.range_skips = getattr(self, "range_skips", 0) + 1
+                return True
+            why = pipes.same_table(real_c["ok"], model_c["ok"], ordered=False, col_order=real_c.get("col_order", False))
+            if why:
+                return False
+            ka, kb = real_c.get("key_sequence"), model_c.get("key_sequence")
+            if ka is not None or kb is not None:
+                if ka is None or kb is None or len(ka) != len(kb):
+                    return False
+                return all(pipes._rows_close(x, y, 1e-8, [False] * len(x)) for x, y in zip(ka, kb))
             return True
         return super().agree(real_c, model_c)
 
